@@ -32,7 +32,7 @@ def run_one(mu, with_tests):
             s = s.replace(old2, new2)
         open(path, "w").write(s)
         out = {"id": mu["id"], "desc": mu["desc"], "checks": {}}
-        env = dict(os.environ, VERIF_REPO_SRC=os.path.join(d, "src"))
+        env = dict(os.environ, VERIF_REPO_SRC=os.path.join(d, "src"), VERIF_EVIDENCE_DIR=os.path.join(d, "evidence"))
         imp = subprocess.run(["/venv/bin/python", "-c", "import tensora"], env=dict(env, PYTHONPATH=os.path.join(d, "src")),
                              capture_output=True, text=True)
         if imp.returncode != 0:
